@@ -363,7 +363,11 @@ func (r *Run) Finish(p *Property) int {
 	reproduced := make([]int, len(keys))
 	needed := make([]int, len(keys))
 	var cwg sync.WaitGroup
-	sem := make(chan struct{}, 8)
+	semN := 8
+	if r.Workers == 1 {
+		semN = 1 // single-worker runs re-execute their failures one at a time as well
+	}
+	sem := make(chan struct{}, semN)
 	for i, k := range keys {
 		fr := r.fails[k]
 		if _, ok := known[fr.Scenario+"|"+fr.Sig]; ok {
